@@ -3,7 +3,7 @@
 Confirms a seeded change made by a sub-agent and records it under /verif/seeded/<ID>-<X>/:
  1. in the scratch worktree: patch applies, builds, demo test FAILS with it and PASSES without it,
     and the pinned suite passes with it (go test . ./h2spec; up to 3 attempts, the suite has load-sensitive tests)
- 2. in /repo: apply, run the named checks (quick; VERIF_NOEVIDENCE), undo
+ 2. scratch worktree of /repo HEAD with the patch: run the named checks there (quick; VERIF_ALT_REPO, no evidence), remove it
 """
 import json, os, re, shutil, subprocess, sys, glob
 wt, pid, x = sys.argv[1], sys.argv[2], sys.argv[3]
@@ -41,19 +41,10 @@ if os.environ.get("SEED_SUITE", "1") == "1":
         if rcs == 0: break
 note("suite_with_change", suite)
 sh("git checkout -- . ", wt)
-# --- my checks against /repo
-assert sh("git status --porcelain", "/repo")[1].strip() == "", "/repo not clean"
-rc, out = sh("git apply %s" % patch, "/repo"); assert rc == 0, out
-res = {}
-try:
-    for c in checks:
-        e2 = dict(env, VERIF_NOEVIDENCE="1")
-        p = subprocess.run(["./check", c, "--tier", os.environ.get("TIER", "quick")], cwd="/verif", env=e2, stdout=subprocess.PIPE, stderr=subprocess.STDOUT, text=True)
-        lines = [l for l in p.stdout.splitlines() if l.startswith(("VIOLATION", "  ", "INCONCLUSIVE"))][:6]
-        res[c] = {"exit": p.returncode, "lines": lines}
-        print("check", c, "exit", p.returncode, lines[:2])
-finally:
-    sh("git checkout -- . && git clean -fdq", "/repo")
+# --- my checks against a scratch worktree with the change applied (driver's VERIF_ALT_REPO mode; /repo is not touched)
+sys.path.insert(0, "/verif/tools")
+from alt import run_alt
+res = run_alt(patch, "%s-%s" % (pid, x), checks)
 meta["checks"] = res
 meta["caught_by"] = [c for c, r in res.items() if r["exit"] == 1]
 dst = os.path.join("/verif/seeded", "%s-%s" % (pid, x)); os.makedirs(dst, exist_ok=True)
@@ -61,6 +52,6 @@ shutil.copy(patch, dst)
 for d in demos: shutil.copy(d, os.path.join(dst, os.path.basename(d) + ".txt"))  # .txt: not compiled by anything
 if os.path.exists(os.path.join(src, "README.md")): shutil.copy(os.path.join(src, "README.md"), os.path.join(dst, "agent-README.md"))
 meta["ran"] = ["git apply patch.diff (scratch worktree); go build ./...; %s (with / without the change); go test -vet=off . ./h2spec (with the change)" % demo_cmd,
-               "git -C /repo apply patch.diff; ./check <id> --tier quick for %s; git -C /repo checkout -- ." % ",".join(checks)]
+               "scratch worktree of /repo HEAD + patch.diff; VERIF_ALT_REPO=<worktree> ./check <id> --tier quick for %s; worktree removed" % ",".join(checks)]
 json.dump(meta, open(os.path.join(dst, "meta.json"), "w"), indent=1)
 print("RESULT", pid, x, "caught_by", meta["caught_by"])
